@@ -6,12 +6,21 @@ rows = []
 for mp in sorted(glob.glob(os.path.join(HERE, 'seeded', '*', 'meta.json'))):
     m = json.load(open(mp))
     name = os.path.basename(os.path.dirname(mp))
-    origin = 'own' if name.startswith('own-') else ('agent r2' if re.match(r'^C\d\db', name) else 'agent r1')
+    mm = re.match(r'^C\d\d([b-z])', name)
+    origin = 'own' if name.startswith('own-') else ('agent r%d' % (ord(mm.group(1)) - ord('a') + 1) if mm else 'agent r1')
+    st_ = m.get('status', '')
+    low = st_.lower()
+    if 'did not' in low or 'missed it' in low or 'caught only by' in low:
+        first = 'sibling as built, own property after strengthening'
+    elif 'missed' in low or 'after strengthening' in low:
+        first = 'after strengthening'
+    else:
+        first = 'as built'
     summ = m.get('summary', '').replace('|', '/').replace('\n', ' ')
     if len(summ) > 150:
         summ = summ[:147] + '...'
-    rows.append('| `%s` | %s | %s | %s | %s |' % (name, m.get('property'), origin, summ, ', '.join(m.get('caught_by') or ['—'])))
-table = ['<!-- seedtable:begin -->', '| seeded change | property | origin | what was changed | reported by |', '|---|---|---|---|---|'] + rows + \
+    rows.append('| `%s` | %s | %s | %s | %s | %s |' % (name, m.get('property'), origin, summ, ', '.join(m.get('caught_by') or ['—']), first))
+table = ['<!-- seedtable:begin -->', '| seeded change | property | origin | what was changed | reported by | caught |', '|---|---|---|---|---|---|'] + rows + \
         ['', '%d changes; every one is reported (exit 1 + VIOLATION naming the construct) by the rules in the last column.' % len(rows),
          '<!-- seedtable:end -->']
 p = os.path.join(HERE, 'DESIGN.md')
